@@ -504,6 +504,16 @@ class App:
         if self.tcolor:
             # the source post-processes its images (white becomes transparent)
             conf['sources']['up']['image'] = {'transparent_color': '#ffffff', 'transparent_color_tolerance': 5}
+        self.cascade = opts.get('cascade')
+        if self.cascade:
+            # the cache of the layer is built on another cache whose regional grid covers the outer tiles of LEVEL only
+            # partly; the lower cache has the WMS source (with on_error) and creates single tiles or 2x2 meta tiles
+            half = 15028131.257091932
+            m = 1 if self.cascade == 'meta1' else 2
+            conf['grids'] = {'lowgrid': {'srs': 'EPSG:900913', 'bbox': [-half, -half, half, half], 'origin': 'll'}}
+            conf['caches']['low'] = {'grids': ['lowgrid'], 'sources': ['up'], 'meta_size': [m, m], 'meta_buffer': 0,
+                                     'cache': {'type': 'file'}}
+            conf['caches']['c1']['sources'] = ['low']
         self.ref = None
         if refresh:
             self.ref = base + '/refresh_reference'
@@ -768,25 +778,41 @@ class History:
         refreshing = stale and (mode == 'ok' or (mode == 'fail' and not self.app.authorize_stale))
         ran_other = []
         tm = self.app.tm
+        where_gate = (overlap[2] if overlap is not None and len(overlap) > 2 else 'lock')
         if overlap is not None:
             import threading
             orig_lock = tm.lock
+            orig_load_tiles = tm.cache.load_tiles
+
+            def run_other():
+                ran_other.append(True)
+
+                def other():
+                    self.up.color = overlap[1]
+                    self.do_request(overlap[0], key, 'ok', None, None, 'absent', None, now)
+                t = threading.Thread(target=other)
+                t.start()
+                t.join(60)
+                ran_other.append(self.up.calls)
+                self.up.mode = mode
 
             def gated_lock(tile):
                 if not ran_other:
-                    ran_other.append(True)
                     tm.lock = orig_lock
-
-                    def other():
-                        self.up.color = overlap[1]
-                        self.do_request(overlap[0], key, 'ok', None, None, 'absent', None, now)
-                    t = threading.Thread(target=other)
-                    t.start()
-                    t.join(60)
-                    ran_other.append(self.up.calls)
-                    self.up.mode = mode
+                    run_other()
                 return orig_lock(tile)
-            tm.lock = gated_lock
+
+            def gated_load_tiles(tiles, *a, **kw):
+                # this request looks for the tile first; then the other request runs to completion
+                res = orig_load_tiles(tiles, *a, **kw)
+                if not ran_other:
+                    tm.cache.load_tiles = orig_load_tiles
+                    run_other()
+                return res
+            if where_gate == 'load':
+                tm.cache.load_tiles = gated_load_tiles
+            else:
+                tm.lock = gated_lock
         try:
             r = self.app.app.get(self.app.url(svc, key), headers=headers, expect_errors=True, extra_environ=dict(self.app.environ))
             status, hl, body = r.status_int, [(k, v) for k, v in r.headerlist], r.body
@@ -795,6 +821,7 @@ class History:
         finally:
             if overlap is not None:
                 tm.lock = orig_lock
+                tm.cache.load_tiles = orig_load_tiles
         if ran_other:
             # the other request has been processed (oracle + model case) on its own; this one is judged against what
             # was stored when it got the lock
@@ -804,6 +831,9 @@ class History:
             refreshing = stale and (mode == 'ok' or (mode == 'fail' and not self.app.authorize_stale))
             calls0 = ran_other[-1]
         asked = self.up.calls - calls0
+        if self.app.cascade and mode in ('fail', 'err') and asked == 0:
+            # cascaded caches: the lower cache had all its tiles, the failing upstream was not needed: an ordinary creation
+            mode = 'ok'
         after = self.observe_all()
         self.store = after
         for k_ in self.keys:
@@ -818,8 +848,10 @@ class History:
                 'clock': repr(float(now)), 'stored_before': None if pre is None else [repr(pre[0]), pre[1]],
                 'status': status, 'etag': etag, 'last_modified': lastmod, 'cache_control': [v for k_, v in hl if k_.lower() == 'cache-control'],
                 'body_len': len(body), 'upstream_calls': asked, 'stale_by_refresh_rule': stale,
-                'schedule': ('this request loaded the tile, then waited for the tile lock while the previous request of this log '
-                             '(same tile) ran to completion') if ran_other else None,
+                'schedule': (('this request looked for the tile in the cache (load_tiles), then the previous request of this log (same '
+                              'tile) ran to completion' if where_gate == 'load' else
+                              'this request loaded / looked for the tile, then waited for the tile lock while the previous request of '
+                              'this log (same tile) ran to completion')) if ran_other else None,
                 'limited_to_cuts_tile': cut,
                 'stored_after': None if after[key] is None else [repr(after[key][0]), after[key][1]]}
         self.log.append(step)
@@ -853,7 +885,9 @@ class History:
                 else:
                     body_ok = body == data
                 if nostore or etag != cur_etag or lastmod != cur_lm or (status == 200 and not body_ok):
-                    self.fail(where + 'validators-unstable',
+                    self.fail('lock-wait-answer-without-metadata' if (ran_other and where_gate == 'lock' and etag == NONE_ETAG
+                                                                      and lastmod is None and not nostore) else
+                              where + 'validators-unstable',
                               'stored tile (mtime %r, size %d) answered with ETag %r / Last-modified %r / no-store=%r / %s body; '
                               'expected ETag %r, Last-modified %r and the stored bytes'
                               % (ts, size, etag, lastmod, nostore, 'same' if body_ok else 'different', cur_etag, cur_lm), step)
@@ -909,7 +943,8 @@ class History:
                 if status == 304:
                     self.fail(where + 'uncacheable-304', 'uncached error fill image answered 304', step)
                 elif bad:
-                    self.fail(where + 'uncacheable-public-headers', 'uncached error fill image: ' + '; '.join(bad), step)
+                    self.fail('cascade-meta-split-loses-uncacheable' if self.app.cascade == 'meta2' else where + 'uncacheable-public-headers',
+                              'uncached error fill image: ' + '; '.join(bad), step)
             elif mode == 'ok' and pre is None:
                 if status >= 400:
                     self.fail('ims-date-out-of-range-500' if ims_class == 'oor' else where + 'fresh-tile-error',
@@ -1086,7 +1121,7 @@ def run_script(ctx, hist, up, script):
                 up.color = tuple(op['color'])
             ov = op.get('overlap')
             hist.do_request(op.get('svc', 'tms'), key, op.get('mode', 'ok'), inm, ims, cls, t, now,
-                            overlap=(ov['svc'], tuple(ov['color'])) if ov else None)
+                            overlap=(ov['svc'], tuple(ov['color']), ov.get('where', 'lock')) if ov else None)
 
 
 def run_history(ctx, cache_type, meta, hours, nsteps, up, clock, script=None, link=None, tz=None, refresh=False, two=False,
@@ -1172,6 +1207,10 @@ def run_history(ctx, cache_type, meta, hours, nsteps, up, clock, script=None, li
             continue
         svc = rng.choice(SERVICES[:4] if auth else SERVICES)      # with limited_to a GetMap is always a merged image
         mode = rng.choice(['ok', 'ok', 'ok', 'ok', 'fail', 'fail', 'err'])
+        if mode == 'err' and refresh and meta > 1:
+            # the meta tile path has no stale fallback for a SourceError (500 for a stale stored tile): expiry behaviour (C13)
+            mode = 'fail'
+
         if mode == 'ok':
             up.color = rng.choice(colors[:3] if link else colors)
         vals = hist.validators[key]
@@ -1191,8 +1230,13 @@ def run_history(ctx, cache_type, meta, hours, nsteps, up, clock, script=None, li
         overlap = None
         if refresh and cache_type == 'file' and pre is not None and app.is_stale(pre) and mode == 'ok' and rng.random() < 0.5:
             # two overlapping requests for the stale tile: this one waits for the lock while the other refreshes it
-            overlap = (rng.choice(SERVICES), rng.choice(colors))
+            overlap = (rng.choice(SERVICES), rng.choice(colors), 'lock')
             ctx.count('app:schedule=overlap')
+        elif pre is None and mode == 'ok' and not auth and not link and not (opts or {}).get('cascade') and rng.random() < 0.3:
+            # two overlapping requests for a missing tile: the other one creates it after this one looked for it
+            # ('load') or while this one waits for the tile lock ('lock')
+            overlap = (rng.choice(SERVICES), up.color, rng.choice(['lock', 'load']))
+            ctx.count('app:schedule=overlap-missing-' + overlap[2])
         st = hist.do_request(svc, key, mode, inm, ims, ims_class, ims_t, now, overlap=overlap)
         if ims_class in ('bad', 'oor') and st is not None:
             # the twin request without the header: a malformed date must make no difference
@@ -1382,7 +1426,7 @@ def run_app_stream(ctx):
         configs = [('file', 1, 72), ('sqlite', 1, 72), ('file', 2, 1), ('sqlite', 2, 1)]
         if not ctx.quick:
             configs += [('file', 1, 1), ('sqlite', 2, 72), ('file', 2, 72), ('sqlite', 1, 1)]
-        nsteps = ctx.n(90, 500)
+        nsteps = ctx.n(70, 500)
         # corpus first
         cdir = os.path.join(VERIF, 'corpus', 'C20')
         for fn in sorted(os.listdir(cdir)) if os.path.isdir(cdir) else []:
@@ -1404,13 +1448,13 @@ def run_app_stream(ctx):
                            CHECKER % (hours * 3600), lambda i, h=hist: h.descr[i], shard=60)
         # file caches with link_single_color_images (every tile of the synthetic upstream is uniform)
         for link in ('symlink', 'hardlink'):
-            hist = run_history(ctx, 'file', 1, 72, ctx.n(70, 400), up, clock, link=link)
+            hist = run_history(ctx, 'file', 1, 72, ctx.n(50, 400), up, clock, link=link)
             ctx.corr_check('app_file_%s' % link, 'Cond',
                            'store * event * list (Z * entry) * option outcome * store', hist.terms,
                            CHECKER % (72 * 3600), lambda i, h=hist: h.descr[i], shard=60)
         # refresh rule on the single tile path (sqlite and file), and a cache with two sources one of which fails
         for cache_type, refresh, two in (('sqlite', True, False), ('file', True, False), ('file', False, True), ('sqlite', False, True)):
-            hist = run_history(ctx, cache_type, 2 if two and cache_type == 'sqlite' else 1, 72, ctx.n(60, 400), up, clock,
+            hist = run_history(ctx, cache_type, 2 if two and cache_type == 'sqlite' else 1, 72, ctx.n(45, 400), up, clock,
                                refresh=refresh, two=two)
             ctx.corr_check('app_%s_%s' % (cache_type, 'refresh' if refresh else 'two_sources'), 'Cond',
                            'store * event * list (Z * entry) * option outcome * store', hist.terms,
@@ -1418,7 +1462,7 @@ def run_app_stream(ctx):
         up.two = False
         # authorization callback that limits the layer to an area cutting some tiles partly (masked answers)
         for cache_type in ('file', 'sqlite'):
-            hist = run_history(ctx, cache_type, 1, 72, ctx.n(60, 400), up, clock, auth=True)
+            hist = run_history(ctx, cache_type, 1, 72, ctx.n(45, 400), up, clock, auth=True)
             ctx.corr_check('app_%s_limited_to' % cache_type, 'Cond',
                            'store * event * list (Z * entry) * option outcome * store', hist.terms,
                            CHECKER % (72 * 3600), lambda i, h=hist: h.descr[i], shard=60)
@@ -1426,8 +1470,15 @@ def run_app_stream(ctx):
         # post-processes its images (transparent_color)
         for cache_type, refresh, opts in (('file', True, {'authorize_stale': True}), ('sqlite', True, {'authorize_stale': True}),
                                           ('file', False, {'tcolor': True})):
-            hist = run_history(ctx, cache_type, 1, 72, ctx.n(50, 300), up, clock, refresh=refresh, opts=opts)
+            hist = run_history(ctx, cache_type, 1, 72, ctx.n(40, 300), up, clock, refresh=refresh, opts=opts)
             ctx.corr_check('app_%s_%s' % (cache_type, '_'.join(sorted(opts))), 'Cond',
+                           'store * event * list (Z * entry) * option outcome * store', hist.terms,
+                           CHECKER % (72 * 3600), lambda i, h=hist: h.descr[i], shard=60)
+        # refresh rule with 2x2 meta tiles (the refreshed tile comes back as a new Tile object), cascaded caches
+        for cache_type, refresh, meta, opts in (('file', True, 2, None), ('sqlite', True, 2, None),
+                                                ('file', False, 1, {'cascade': 'meta1'}), ('file', False, 1, {'cascade': 'meta2'})):
+            hist = run_history(ctx, cache_type, meta, 72, ctx.n(40, 300), up, clock, refresh=refresh, opts=opts)
+            ctx.corr_check('app_%s_%s' % (cache_type, 'refresh_meta2' if refresh else 'cascade_' + opts['cascade']), 'Cond',
                            'store * event * list (Z * entry) * option outcome * store', hist.terms,
                            CHECKER % (72 * 3600), lambda i, h=hist: h.descr[i], shard=60)
         run_merged_wmsc(ctx, up, clock)
@@ -1435,7 +1486,7 @@ def run_app_stream(ctx):
         for tz in ('America/New_York', 'Asia/Kolkata'):
             with TimeZone(tz):
                 run_tz_direct(ctx, tz)
-                hist = run_history(ctx, 'file', 1, 72, ctx.n(45, 300), up, clock, tz=tz)
+                hist = run_history(ctx, 'file', 1, 72, ctx.n(40, 300), up, clock, tz=tz)
                 ctx.corr_check('app_tz_%s' % tz.split('/')[1], 'Cond',
                                'store * event * list (Z * entry) * option outcome * store', hist.terms,
                                CHECKER % (72 * 3600), lambda i, h=hist: h.descr[i], shard=60)
